@@ -1880,22 +1880,24 @@ impl Typer {
                 let name = &hint;
                 let mut args_tast = Vec::new();
                 let mut arg_types = Vec::new();
-                for arg in args.iter() {
-                    let arg_tast = self.infer_expr(genv, local_env, diagnostics, *arg);
-                    arg_types.push(arg_tast.get_ty());
-                    args_tast.push(arg_tast);
-                }
                 if let Some(func_ty) = lookup_function_type_by_hint(genv, name.as_str()) {
                     let inst_ty = self.inst_ty(&func_ty);
+                    // Each argument is visited once: checked against the parameter type when
+                    // the arity matches, inferred otherwise (visiting it twice doubles the
+                    // work at every level of nested calls).
                     if let tast::Ty::TFunc { params, .. } = &inst_ty
                         && params.len() == args.len()
                         && !params.is_empty()
                     {
-                        args_tast.clear();
-                        arg_types.clear();
                         for (arg, expected_ty) in args.iter().zip(params.iter()) {
                             let arg_tast =
                                 self.check_expr(genv, local_env, diagnostics, *arg, expected_ty);
+                            arg_types.push(arg_tast.get_ty());
+                            args_tast.push(arg_tast);
+                        }
+                    } else {
+                        for arg in args.iter() {
+                            let arg_tast = self.infer_expr(genv, local_env, diagnostics, *arg);
                             arg_types.push(arg_tast.get_ty());
                             args_tast.push(arg_tast);
                         }
@@ -1961,6 +1963,9 @@ impl Typer {
                         ty: ret_ty,
                     }
                 } else {
+                    for arg in args.iter() {
+                        self.infer_expr(genv, local_env, diagnostics, *arg);
+                    }
                     super::util::push_ice(
                         diagnostics,
                         format!("Function {} not found in environment", name),
@@ -1979,22 +1984,21 @@ impl Typer {
                 {
                     let mut args_tast = Vec::new();
                     let mut arg_types = Vec::new();
-                    for arg in args.iter() {
-                        let arg_tast = self.infer_expr(genv, local_env, diagnostics, *arg);
-                        arg_types.push(arg_tast.get_ty());
-                        args_tast.push(arg_tast);
-                    }
 
                     let inst_ty = self.inst_ty(&func_ty);
                     if let tast::Ty::TFunc { params, .. } = &inst_ty
                         && params.len() == args.len()
                         && !params.is_empty()
                     {
-                        args_tast.clear();
-                        arg_types.clear();
                         for (arg, expected_ty) in args.iter().zip(params.iter()) {
                             let arg_tast =
                                 self.check_expr(genv, local_env, diagnostics, *arg, expected_ty);
+                            arg_types.push(arg_tast.get_ty());
+                            args_tast.push(arg_tast);
+                        }
+                    } else {
+                        for arg in args.iter() {
+                            let arg_tast = self.infer_expr(genv, local_env, diagnostics, *arg);
                             arg_types.push(arg_tast.get_ty());
                             args_tast.push(arg_tast);
                         }
